@@ -11,7 +11,13 @@ Every case runs the REAL slimta code against a peer that stops cooperating at on
            hop vf.c14_downstream.Downstream14 that stalls / sends half a reply line / trickles a reply at
            one stage (connect .. quit, TLS handshakes, PIPELINING on/off, 1-2 recipients).
   pipe     PipeRelay / MaildropRelay / DovecotLdaRelay (timeout=T) with a /bin/sh stub that never ends.
-  http     HttpRelay (timeout=T) against a loopback gevent StreamServer that never answers / answers half.
+  http     HttpRelay (timeout=T) against a loopback gevent StreamServer that never answers / answers half; and
+           connection re-use (idle_timeout set): message 1 answered with complete headers and a body that is
+           complete / never finished / trickled / short-then-closed, then message 2 on the same connection with the
+           server answering / silent / trickling.
+  re-use   SMTP/LMTP with idle_timeout: message 1 succeeds, the next hop goes silent at MAIL / end-of-data of
+           message 2 on the same connection, or sends half a line unasked while idle (_check_server_timeout probe).
+           A re-use case in which a second connection was opened is 'stall-stage-not-reached', never a verdict.
 
 Verdict "still blocked" -- why it is not a wall-clock verdict.  slimta's gevent Timeouts and the harness'
 sleeps are timers of the same single-threaded libev hub; libev fires timers in deadline order and gevent
@@ -577,6 +583,7 @@ _PARTIAL = {'banner': b'220 downstream rea', 'ehlo': b'250-downstream greets you
             'starttls': b'220 2.0.0 go ah', 'auth': b'235 2.7.0 authentica', 'mail': b'250 2.1.0 sender o',
             'rcpt0': b'250 2.1.5 recipient o', 'rcpt1': b'250 2.1.5 recipient o', 'data': b'354 go ah',
             'eod0': b'250 2.0.0 queu', 'eod1': b'250 2.0.0 deliv', 'rset': b'250 2.0.0 res', 'quit': b'221 2.0.0 b',
+            'idle-probe': b'421 4.4.2 idle connection timed o',
             'tlshandshake': b'\x16\x03\x03\x00\x7a\x02\x00', 'tls-immediate-handshake': b'\x16\x03\x03\x00\x7a\x02\x00'}
 _TRICKLE_CODE = {'banner': '220', 'mail': '250', 'rcpt0': '250', 'rcpt1': '250', 'data': '354', 'eod0': '250',
                  'eod1': '250', 'rset': '250', 'quit': '221', 'auth': '235', 'starttls': '220'}
@@ -743,10 +750,16 @@ def run_relay_case(sub):
     act2 = _action(second['stage'], second.get('pattern', 'stall'), T, rnd) if second else None
 
     reuse = bool(second) and second.get('mode') == 'reuse'
+    probe = reuse and second['stage'] == 'idle-probe'
     holder = {}
 
     def script(ctx, st):
         ds_ = holder['ds']
+        if probe:
+            # message 1 succeeds; right after its end-of-data reply the next hop sends half a line unasked
+            if st == 'idle' and ds_.connects <= 1 and ctx['txn'] == 0:
+                return act2
+            return ('ok',)
         if reuse:
             # first transaction succeeds, the connection stays open, the second transaction stalls
             ph = 1 if (ds_.connects <= 1 and ctx['txn'] == 0) else 2
@@ -785,15 +798,33 @@ def run_relay_case(sub):
             if not out.get('done'):
                 return res
         if second:
-            ds.stalled.clear()
-            del ds.stall_log[:]
             out2 = {}
             before = list(clients)
-            g2 = _attempt(relay, _envelope(sub, 1), out2)
-            gs.append(g2)
-            _judge_relay_attempt(sub, res, T, ds, g2, out2, clients, second['stage'], second.get('pattern', 'stall'),
-                                 'second')
+            if probe:
+                ds.stalled.wait(STEP_WATCHDOG)        # the unasked half line has been sent on the idle connection
+                if not ds.stalled.is_set():
+                    res.inconc = 'stall-stage-not-reached: the next hop never got to its idle stage'
+                    return res
+                started = Event()
+                g2 = _attempt(relay, _envelope(sub, 1), out2, started)
+                gs.append(g2)
+                started.wait(STEP_WATCHDOG)
+                settle()                              # the idle client has picked the request up (loop iterations)
+            else:
+                ds.stalled.clear()
+                del ds.stall_log[:]
+                g2 = _attempt(relay, _envelope(sub, 1), out2)
+                gs.append(g2)
+            judged = _judge_relay_attempt(sub, res, T, ds, g2, out2, clients, second['stage'],
+                                          second.get('pattern', 'stall'), 'second')
             res.detail['second_used_new_client'] = len(clients) > len(before)
+            res.detail['connections_to_next_hop'] = ds.connects
+            if reuse and judged:
+                if len(clients) > len(before) or ds.connects > 1:
+                    del res.failed[:]
+                    res.inconc = 'stall-stage-not-reached: the idle connection was not re-used'
+                else:
+                    res.hits.append('relay-reuse-judged')
         return res
     finally:
         for g in gs:
@@ -1304,8 +1335,11 @@ def all_subcases(tier, seed):
         for proto in ('smtp', 'lmtp'):
             for pl in (False, True):
                 for s2 in (('mail', 'eod0', 'idle-probe') if tier == 'quick' else ('idle-probe',)):
+                    sec = {'stage': s2, 'mode': 'reuse'}
+                    if s2 == 'idle-probe':
+                        sec['pattern'] = 'partial'
                     add(stall, side='relay', proto=proto, pipelining=pl, nrcpt=1, stage='none', pattern='stall',
-                        T=T, idle=RELAY_IDLE, second={'stage': s2, 'mode': 'reuse'})
+                        T=T, idle=RELAY_IDLE, second=sec)
         if tier == 'thorough':
             firsts = ['connect', 'banner', 'ehlo', 'mail', 'rcpt0', 'data', 'eod0', 'rset', 'quit']
             seconds = ['connect', 'banner', 'ehlo', 'mail', 'rcpt0', 'data', 'eod0', 'rset', 'quit']
